@@ -105,6 +105,10 @@ def main(argv: list[str]) -> int:
             prop = load_prop(prop_id)
             if hasattr(prop, "install_monitors"):
                 prop.install_monitors(ctx)
+            if getattr(prop, "ROTATING_PKI", 0) and mode == "run":
+                from vf import pki
+
+                pki.enable_rotation(workdir, f"{seed}/{prop_id}/{shard}/rotating-pki", float(prop.ROTATING_PKI))
         except Exception:  # pylint: disable=broad-except
             ctx._emit({"t": "fatal", "tb": traceback.format_exc()[-3000:]})
             return 2
@@ -136,6 +140,10 @@ def main(argv: list[str]) -> int:
                     prop.finish(ctx)
                 except Exception:  # pylint: disable=broad-except
                     ctx._emit({"t": "harness_error", "i": -1, "case": None, "tb": traceback.format_exc()[-2000:]})
+        if getattr(prop, "ROTATING_PKI", 0) and mode == "run":
+            from vf import pki
+
+            ctx.count("rotating_pki_paths", pki.rotation_stats())
         ctx._emit({"t": "counters", "v": ctx.counters})
         ctx._emit({"t": "done"})
     return 0
